@@ -776,11 +776,11 @@ func (c *Client) updateStatesSchema(resp *MsgSrvHello) {
 		return
 	}
 
-	// locks
-	netMach.schemaMx.Lock()
-	defer netMach.schemaMx.Unlock()
+	// locks (clock first, like the getters of the network machine)
 	netMach.clockMx.Lock()
 	defer netMach.clockMx.Unlock()
+	netMach.schemaMx.Lock()
+	defer netMach.schemaMx.Unlock()
 
 	// optional schema
 	if resp.Schema != nil {
